@@ -103,7 +103,26 @@ fn tokenize(s: &str) -> Vec<(usize, usize)> {
     v
 }
 
+/// Hand-written first seed: several multi-byte characters (2-byte, astral) in front of short
+/// comments, strings and identifiers on the same line, so that a byte offset used as a character
+/// or utf-16 index lands beyond the end of the line (the single-character insertions into the
+/// shipped examples only ever shift an offset by one character). Added after seeded change C43.
+const MULTIBYTE_SEED: &str = "éé😀#c\nstream Sé = A😀 # é\n    .where(x == \"é😀é\") #\nlet é😀 = \"😀😀\" # cé\n";
+
 fn load_seeds() -> Vec<Seed> {
+    let mut seeds = Vec::new();
+    {
+        let text = MULTIBYTE_SEED.to_string();
+        let toks = tokenize(&text);
+        let mut bounds: Vec<usize> = text.char_indices().map(|(i, _)| i).collect();
+        bounds.push(text.len());
+        seeds.push(Seed { name: "multibyte_lines".to_string(), text, toks, bounds });
+    }
+    seeds.extend(load_example_seeds());
+    seeds
+}
+
+fn load_example_seeds() -> Vec<Seed> {
     SEEDS
         .iter()
         .map(|sp| {
@@ -1184,7 +1203,7 @@ fn finish(mut rep: Report, loc: Local, args: &Args, ctx: Option<(&Space, &Plan)>
             if pl.diag_stride <= 1 { "every document".to_string() } else { format!("the unchanged seeds and the documents with index % {} == 0", pl.diag_stride) }
         );
         rep.rule = format!(
-            "Every (document, position, handler) triple selected by the deterministic rule below is executed on the real code (no sampling). Documents: for each of 6 seeds (17–24-line excerpts of shipped examples/*.vpl, line ranges in `seeds`): the seed, every single-character deletion, every single-token deletion and duplication (tokens = runs of [A-Za-z0-9_] and single other non-white-space characters; white space is edited at character level), every insertion of one of {} symbols {:?} at every character boundary (so é and 😀 occur inside, before and after every identifier, string and comment), every substitution of a token by one of {} dictionary tokens. Positions: every (line, utf-16 column ≤ len+1) of every line of text.split('\\n') plus (lines,0) and (lines,1). Per document: get_diagnostics, get_semantic_tokens (delta-decoded), get_document_symbols; per position: get_hover, get_completions, get_definition, get_references; each call under catch_unwind in a child process. {thin}. Non-trivial = documents that contain a multi-byte character or for which get_diagnostics (where run) reports at least one diagnostic (parse error or validation finding). evaluations = handler calls.",
+            "Every (document, position, handler) triple selected by the deterministic rule below is executed on the real code (no sampling). Documents: for a hand-written 4-line seed with several multi-byte characters in front of short comments, strings and identifiers, and for each of 6 seeds (17–24-line excerpts of shipped examples/*.vpl, line ranges in `seeds`): the seed, every single-character deletion, every single-token deletion and duplication (tokens = runs of [A-Za-z0-9_] and single other non-white-space characters; white space is edited at character level), every insertion of one of {} symbols {:?} at every character boundary (so é and 😀 occur inside, before and after every identifier, string and comment), every substitution of a token by one of {} dictionary tokens. Positions: every (line, utf-16 column ≤ len+1) of every line of text.split('\\n') plus (lines,0) and (lines,1). Per document: get_diagnostics, get_semantic_tokens (delta-decoded), get_document_symbols; per position: get_hover, get_completions, get_definition, get_references; each call under catch_unwind in a child process. {thin}. Non-trivial = documents that contain a multi-byte character or for which get_diagnostics (where run) reports at least one diagnostic (parse error or validation finding). evaluations = handler calls.",
             INS.len(),
             INS,
             DICT.len()
